@@ -585,4 +585,109 @@ theorem coherent_init (resetEnd : Int) (parallel ctx batch : Nat) (multi canShif
       simp only [this]; exact List.Perm.refl _
     · intro h; cases h
 
+/-! ## what the model sees -/
+
+theorem visible_eq_view (cells : List Cell) (s : Nat) (p : Int) :
+    visible cells s p = ((view cells s).filter (fun x => decide (x.1 ≤ p))).map (fun x => (x.2.1, x.2.2)) := by
+  induction cells with
+  | nil => rfl
+  | cons c cs ih =>
+    unfold visible at ih ⊢
+    rw [view_cons]
+    by_cases h1 : c.has s
+    · by_cases h2 : c.pos ≤ p
+      · have : c.key.1 ≤ p := h2
+        simp [List.filter_cons, h1, h2, this, ih, Cell.key]
+      · have : ¬ c.key.1 ≤ p := h2
+        simp [List.filter_cons, h1, h2, this, ih]
+    · simp [List.filter_cons, h1, ih]
+
+/-- the history exposed to a batch token at position `p`, for a record `eff` stored coherently -/
+def idealHistory (eff : List Tok) (p : Int) : List (Tok × Int) :=
+  ((canon eff).filter (fun x => decide (x.1 ≤ p))).map (fun x => (x.2.1, x.2.2))
+
+/-- In a coherent cache, what Forward exposes to the tokens it stores for slot `i` is exactly the
+    effective input (record ++ new) up to the token's position, each input at its own position —
+    whatever prefixes were reused, forked or shifted before. -/
+theorem forward_exposes (c : Cache) (hc : Coherent c) (i : Nat) (hi : i < c.slots.length)
+    (new : List Tok) (loc : Nat) (hu : (getSlot c.slots i).inUse = true)
+    (hfree : ∀ x ∈ (c.cells.drop loc).take new.length, x.seqs = [])
+    (hpos : ((getSlot c.slots i).inputs.length : Int) + new.length < maxI32) (p : Int) :
+    (visible (forward c i new loc).cells i p).Perm (idealHistory ((getSlot c.slots i).inputs ++ new) p) := by
+  have hc' := coherent_forward c hc i hi new loc hu hfree hpos
+  have hi' : i < (forward c i new loc).slots.length := by simp [forward, setSlot, hi]
+  obtain ⟨hid', hok'⟩ := hc'.2 i hi'
+  have hslot : (forward c i new loc).slots[i] = { c.slots[i] with inputs := c.slots[i].inputs ++ new } := by
+    simp [forward, setSlot, List.getElem_modify]
+  rw [getSlot_eq _ _ hi] at hu ⊢
+  rw [hslot] at hid' hok'
+  simp only at hid'
+  have hall := hok'.2 hu
+  have hV := hok'.1
+  simp only [hid'] at hall hV
+  rw [filter_all _ _ (fun x hx => by simpa using hall x hx)] at hV
+  rw [visible_eq_view]
+  unfold idealHistory
+  exact (hV.filter _).map _
+
+/-- **Fresh-runner equivalence (stated on what the model is shown).**  Take any coherent cache `c`
+    (reached through any history: reuse, fork, shifts) and any coherent `fresh` cache in which slot
+    `i`'s record is empty (a brand-new runner, or one that erased everything).  Processing `new` on top
+    of the record in `c` exposes to every batch token, up to order, exactly the key rows that `fresh`
+    exposes when it processes the whole effective input `record ++ new` from position 0.  The scripted
+    model's next token is a function of this multiset, so the generated tokens coincide. After a context
+    shift the effective input is the shifted record (coherent_invariant covers the shift itself). -/
+theorem fresh_equiv (c fresh : Cache) (hc : Coherent c) (hf : Coherent fresh) (i : Nat)
+    (hi : i < c.slots.length) (hif : i < fresh.slots.length)
+    (new : List Tok) (loc locf : Nat)
+    (hu : (getSlot c.slots i).inUse = true) (huf : (getSlot fresh.slots i).inUse = true)
+    (hempty : (getSlot fresh.slots i).inputs = [])
+    (hfree : ∀ x ∈ (c.cells.drop loc).take new.length, x.seqs = [])
+    (hfreef : ∀ x ∈ (fresh.cells.drop locf).take ((getSlot c.slots i).inputs ++ new).length, x.seqs = [])
+    (hpos : ((getSlot c.slots i).inputs.length : Int) + new.length < maxI32) (p : Int) :
+    (visible (forward c i new loc).cells i p).Perm
+      (visible (forward fresh i ((getSlot c.slots i).inputs ++ new) locf).cells i p) := by
+  have h1 := forward_exposes c hc i hi new loc hu hfree hpos p
+  have h2 := forward_exposes fresh hf i hif ((getSlot c.slots i).inputs ++ new) locf huf hfreef
+    (by rw [hempty]; simp only [List.length_nil, List.length_append]; omega) p
+  rw [hempty, List.nil_append] at h2
+  exact h1.trans h2.symm
+
+/-! ## finding F3: the pinned failure path of ShiftCacheSlot -/
+
+/-- One slot, context 4, no shiftFn.  A 4-input prompt fills the context; the shift fails
+    (ErrNotSupported after the metadata was already moved); the reset `Remove(id, 0, resetEnd)` runs; the
+    two kept inputs are reprocessed.  Returns what the second reprocessed token (position 1) is shown,
+    and the length of the record. -/
+def f3Trace (resetEnd : Int) : List (Tok × Int) × Nat :=
+  let c0 := (mkServer resetEnd 1 4 1 false false 3 0).cache
+  match loadCacheSlot c0 [1, 1, 1, 1] 1 true with
+  | .ok (c1, i, rest) =>
+    let c2 := forward c1 i rest 0
+    match shiftCacheSlot c2 i 0 with
+    | .reprocess c3 ins =>
+      let c4 := forward c3 i ins 0
+      (visible c4.cells 0 1, (getSlot c4.slots i).inputs.length)
+    | _ => ([], 99)
+  | _ => ([], 98)
+
+/-- **Witness of finding F3.**  With the pinned reset `Remove(id, 0, -1)` nothing is removed and every
+    position moves up by one: the reprocessed token at position 1 is shown three entries (one stale key
+    row, still roped to position 2) although the record holds two inputs.  With `math.MaxInt32` it is
+    shown exactly the two recorded inputs. -/
+theorem F3_pinned_reset_leaves_stale_entries :
+    f3Trace (-1) = ([(1, 0), (1, 1), (1, 2)], 2) ∧ f3Trace maxI32 = ([(1, 0), (1, 1)], 2) := by decide
+
+/-- non-vacuity: the hypotheses of the invariant and of `forward_exposes` are met by a real history
+    (new runner, load, forward of the whole prompt) -/
+example : ∃ c1 i rest,
+    loadCacheSlot (mkServer maxI32 2 8 4 true true 5 0).cache [1, 2, 3] 1 true = .ok (c1, i, rest) ∧
+    Steps true (mkServer maxI32 2 8 4 true true 5 0).cache (forward c1 i rest 0) := by
+  refine ⟨_, _, _, rfl, ?_⟩
+  refine .tail _ _ _ (.tail _ _ _ (.refl _) (.load _ [1, 2, 3] 1 true _ _ _ rfl)) (.forward _ _ _ _ ?_ ?_ ?_ ?_)
+  · decide
+  · decide
+  · decide
+  · decide
+
 end OllamaVerif.C07
